@@ -63,11 +63,17 @@ func (s *sys) mkRec(r *rand.Rand, k, kind string, stale bool, bigVals bool) agg.
 		rec.Sp, rec.Sns = "pod-a", "ns-a"
 		if !s.global {
 			rec.Egress = r.Intn(2) // none / allow
+			if r.Intn(4) == 0 {
+				rec.Dns = "ns-b-seen-from-a" // a field of the other side's naming that this node happens to know
+			}
 		}
 	case "dst":
 		rec.Dp, rec.Dns = "pod-b", "ns-b"
 		if !s.global {
 			rec.Ingress = r.Intn(2)
+			if r.Intn(4) == 0 {
+				rec.Sns = "ns-a-seen-from-b"
+			}
 			rec.Prio = []int{0, 0, 1, 50000, -1, -2147483648, 2147483647}[r.Intn(7)]
 		}
 	case "deny": // inter-node, denied at egress: ready at once
